@@ -192,9 +192,11 @@ def ev_json(ev) -> dict:
         if method is not None and method.isascii():
             is_connect = method.decode("ascii").upper() == "CONNECT"
         return {"k": "request", "sid": ev.stream_id, "hasMethod": method is not None, "methodAscii": method is None or method.isascii(),
-                "isConnect": is_connect, "hasPath": path is not None, "pathAscii": path is None or path.isascii()}
+                "isConnect": is_connect, "hasPath": path is not None, "pathAscii": path is None or path.isascii(),
+                # the contents (C01 `h2deliver.run`; ignored by `c04.h2recv`)
+                "headers": [[bytes(n).decode("latin1"), bytes(v).decode("latin1")] for n, v in ev.headers]}
     if isinstance(ev, h2.events.DataReceived):
-        return {"k": "data", "sid": ev.stream_id}
+        return {"k": "data", "sid": ev.stream_id, "d": bytes(ev.data).decode("latin1"), "flow": ev.flow_controlled_length}
     if isinstance(ev, h2.events.StreamEnded):
         return {"k": "ended", "sid": ev.stream_id}
     if isinstance(ev, h2.events.StreamReset):
@@ -283,7 +285,10 @@ class Taps:
                 except BaseException as e:
                     tap.log.append([kind, name, sid, cls_of(e)] if kind == "h2" else [kind, name, cls_of(e)])
                     raise
-                tap.log.append([kind, name, sid, None] if kind == "h2" else [kind, name, None])
+                entry = [kind, name, sid, None] if kind == "h2" else [kind, name, None]
+                if name == "acknowledge_received_data":
+                    entry.append(a[0] if a else k.get("acknowledged_size"))      # the amount (C01)
+                tap.log.append(entry)
                 return r
             return f
 
@@ -504,11 +509,16 @@ async def drive_h2(cfg: dict, steps: List[dict]) -> dict:
         async def spawn_app(self, app, config_, scope, send):
             stream = send.__self__
             sid = stream.stream_id
-            apps[sid] = {"stream": stream, "puts": [], "scope_type": scope["type"]}
+            apps[sid] = {"stream": stream, "puts": [], "scope_type": scope["type"], "spawns": apps.get(sid, {}).get("spawns", 0) + 1, "msgs": [],
+                         "scope": {k: (bytes(v).decode("latin1") if isinstance(v, (bytes, bytearray)) else v) for k, v in scope.items()
+                                   if k in ("method", "http_version", "raw_path", "query_string")}
+                                  | {"headers": [[bytes(n).decode("latin1"), bytes(v).decode("latin1")] for n, v in scope["headers"]]}}
             log.append(["spawn", sid, scope["type"] == "websocket"])
 
             async def app_put(message):
                 apps[sid]["puts"].append(message.get("type"))
+                apps[sid]["msgs"].append([message.get("type"), bytes(message.get("body", b"") or b"").decode("latin1") if "body" in message else None,
+                                          message.get("more_body")])
 
             return app_put
 
@@ -622,7 +632,7 @@ async def drive_h2(cfg: dict, steps: List[dict]) -> dict:
     finally:
         taps.remove()
     return {"log": log, "states": states, "error": errors[0] if errors else None, "sent": sent, "stuck": stuck,
-            "apps": {sid: {"puts": a["puts"], "type": a["scope_type"]} for sid, a in apps.items()}}
+            "apps": {sid: {"puts": a["puts"], "type": a["scope_type"], "msgs": a["msgs"], "scope": a["scope"], "spawns": a["spawns"]} for sid, a in apps.items()}}
 
 
 def run(coro):
